@@ -1747,19 +1747,41 @@ Fixpoint asent (closed : bool) (es : list aev) : list wtok :=
   | [] => []
   | AvData d :: r => if closed then asent closed r else TData d :: asent closed r
   | AvEof :: r => if closed then asent closed r else TEof :: asent closed r
+  | AvAttach :: r => asent closed r
   | AvTurn :: r => asent closed r
   | AvClose :: r => asent true r
   end.
 
-Lemma arun_inv es : forall a,
-  a_target (fold_left astep es a) ++ a_queue (fold_left astep es a) =
-  a_target a ++ a_queue a ++ asent (a_chan_closed a) es.
+Definition a_ok (a : aredir) : Prop := (a_att a = true -> a_buf a = []) /\ (a_att a = false -> a_queue a = []).
+
+Lemma astep_ok a e : a_ok a -> a_ok (astep a e).
 Proof.
-  induction es as [|e es IH]; intros a; simpl.
-  - rewrite app_nil_r. reflexivity.
-  - rewrite IH. destruct a as [q t c]. destruct e as [d| | |]; simpl.
-    + destruct c; simpl; rewrite <- ?app_assoc; reflexivity.
-    + destruct c; simpl; rewrite <- ?app_assoc; reflexivity.
+  intros [H1 H2]. destruct a as [b q t c att l]. simpl in *.
+  destruct e as [d| | | |]; unfold astep, a_recv; simpl.
+  - destruct c, att; simpl; split; intros; try discriminate; auto.
+  - destruct c, att; simpl; split; intros; try discriminate; auto.
+  - destruct att; simpl; split; intros; try discriminate; auto.
+  - destruct q as [|x q]; simpl; split; intros H; auto. specialize (H2 H). discriminate.
+  - split; auto.
+Qed.
+
+Lemma arun_inv es : forall a, a_ok a ->
+  a_ok (fold_left astep es a) /\
+  a_target (fold_left astep es a) ++ a_queue (fold_left astep es a) ++ a_buf (fold_left astep es a) =
+  a_target a ++ a_queue a ++ a_buf a ++ asent (a_chan_closed a) es.
+Proof.
+  induction es as [|e es IH]; intros a Hok; simpl.
+  - rewrite app_nil_r. split; [assumption|reflexivity].
+  - destruct (IH (astep a e) (astep_ok a e Hok)) as [Hok' Heq]. split; [assumption|]. rewrite Heq. clear IH Heq Hok'.
+    destruct Hok as [H1 H2]. destruct a as [b q t c att l]. simpl in *.
+    destruct e as [d| | | |]; unfold astep, a_recv; simpl.
+    + destruct c; simpl; [reflexivity|]. destruct att; simpl.
+      * rewrite (H1 eq_refl). simpl. rewrite <- !app_assoc. reflexivity.
+      * rewrite (H2 eq_refl). simpl. rewrite <- !app_assoc. reflexivity.
+    + destruct c; simpl; [reflexivity|]. destruct att; simpl.
+      * rewrite (H1 eq_refl). simpl. rewrite <- !app_assoc. reflexivity.
+      * rewrite (H2 eq_refl). simpl. rewrite <- !app_assoc. reflexivity.
+    + destruct att; simpl; [reflexivity|]. rewrite <- !app_assoc. simpl. reflexivity.
     + destruct q as [|x q]; simpl; rewrite <- ?app_assoc; reflexivity.
     + reflexivity.
 Qed.
@@ -1767,8 +1789,10 @@ Qed.
 (* when wait() returns, the target holds exactly what was sent before the close, in order *)
 Theorem wait_flushes_redirect es : await_done (arun es) = true -> a_target (arun es) = asent false es.
 Proof.
-  unfold await_done, arun. intros H. apply andb_true_iff in H as [_ Hq].
-  pose proof (arun_inv es (mkA [] [] false)) as Hi. simpl in Hi.
-  destruct (a_queue (fold_left astep es (mkA [] [] false))); [|discriminate].
-  rewrite app_nil_r in Hi. exact Hi.
+  unfold await_done, arun. intros H. apply andb_true_iff in H as [H Hq]. apply andb_true_iff in H as [_ Ha].
+  assert (Hok0 : a_ok (mkA [] [] [] false false false)) by (split; reflexivity).
+  destruct (arun_inv es _ Hok0) as [[Hb _] Hi]. simpl in Hi.
+  rewrite (Hb Ha) in Hi.
+  destruct (a_queue (fold_left astep es (mkA [] [] [] false false false))); [|discriminate].
+  rewrite !app_nil_r in Hi. exact Hi.
 Qed.
